@@ -1,6 +1,10 @@
 import MJ.Proofs.Bal
+import MJ.Proofs.BalFrame
 import MJ.Proofs.Nested
 import MJ.Proofs.BalGen
+import MJ.Proofs.BalPatch
+import MJ.Proofs.Ops
+import MJ.Proofs.OpsBal
 import MJ.Gen.Tables
 /-!
 # C05 — scoped constructs restore scope, capture and escape state on every path
@@ -121,6 +125,68 @@ theorem bareBreak_gets_stuck : ¬ Balanced bareBreak := by
       .tail r4 (l := [⟨5, [.withF, .loopF true none none], 0, 0⟩]) (by decide) (by simp)
     exact .tail r5 (l := [⟨8, [.withF, .loopF true none none], 0, 0⟩]) (by decide) (by simp)
   exact (h 0 (by decide) _ hr).1 (by decide)
+
+/-! ## A certified stream leaves its caller's stacks alone — wherever it stops -/
+
+/-- `certified_run_keeps_callers_stacks`: the abstract machine started ON TOP of arbitrary stacks of a
+caller (`F0`: `with` frames and loop frames of other instruction streams, `c0` open captures, `e0`
+auto-escape entries) instead of on empty ones.  For a stream with an accepted certificate, in EVERY
+state it can reach — i.e. wherever a nested evaluation (block, `super()`, include, macro body, call
+block) is stopped by a failing instruction — the caller's frames are still there underneath, in
+order and untouched, with only frames of the stream's own on top, at least the caller's captures and
+auto-escape entries are open, and the next instruction does not pop any of the caller's; when the
+stream is left normally exactly the caller's stacks remain.  These are the hypotheses `FramesOnTop`
+and `BalancedOnOk` under which `nested_restores` is proved, for every program counter. -/
+theorem certified_run_keeps_callers_stacks {code : Code} {cert : Cert} (hc : checkCert code cert = true)
+    {e : Nat} (he : e ∈ entries code) {F0 : List RFrame} (hF : ∀ f ∈ F0, Foreign f) (c0 e0 : Nat)
+    {t : VmState} (hr : Reach code ⟨e, F0, c0, e0⟩ t) :
+    ∃ own k m, t.frames = own ++ F0 ∧ t.caps = k + c0 ∧ t.escs = m + e0 ∧
+      step code t ≠ .stuck ∧
+      (∀ l, step code t = .next l → ∀ u ∈ l, ∃ own', u.frames = own' ++ F0 ∧ c0 ≤ u.caps ∧ e0 ≤ u.escs) ∧
+      (step code t = .exit → own = [] ∧ k = 0 ∧ m = 0) := by
+  have h0 : (⟨e, F0, c0, e0⟩ : VmState) = lift F0 c0 e0 (initAt e) := by simp [lift, initAt]
+  rw [h0] at hr
+  obtain ⟨rel, hrel, rfl⟩ := reach_lift hc he hF c0 e0 hr
+  have hs := step_sound hc rel (reach_inv hc (init_inv hc he) hrel)
+  have hl := step_lift hF c0 e0 rel hs.1
+  refine ⟨rel.frames, rel.caps, rel.escs, rfl, rfl, rfl, ?_, ?_, ?_⟩
+  · rw [hl]; cases h : step code rel with
+    | stuck => exact absurd h hs.1
+    | exit => simp [Outcome.lift]
+    | next l => simp [Outcome.lift]
+  · intro l hst u hu
+    rw [hl] at hst
+    cases h : step code rel with
+    | stuck => exact absurd h hs.1
+    | exit => simp [h, Outcome.lift] at hst
+    | next l' =>
+      simp only [h, Outcome.lift, Outcome.next.injEq] at hst
+      subst hst
+      obtain ⟨r', _, rfl⟩ := List.mem_map.mp hu
+      exact ⟨r'.frames, rfl, by simp [lift], by simp [lift]⟩
+  · intro hex
+    rw [hl] at hex
+    cases h : step code rel with
+    | stuck => exact absurd h hs.1
+    | exit => exact hs.2.1 h
+    | next l => simp [h, Outcome.lift] at hex
+
+/-- non-vacuity: `goodBreak` on top of a caller with a loop frame, a `with` frame and two open
+captures; the state inside the `with` of the loop body is reachable -/
+example : ∃ t, Reach goodBreak ⟨0, [.loopF true none none, .withF], 2, 0⟩ t ∧
+    t.frames = [.withF, .loopF true none none] ++ [.loopF true none none, .withF] ∧ t.caps = 2 := by
+  have r0 : Reach goodBreak ⟨0, [.loopF true none none, .withF], 2, 0⟩ ⟨0, [.loopF true none none, .withF], 2, 0⟩ := .refl _
+  have r1 : Reach goodBreak ⟨0, [.loopF true none none, .withF], 2, 0⟩
+      ⟨1, [.loopF true none none, .loopF true none none, .withF], 2, 0⟩ :=
+    .tail r0 (l := [⟨1, [.loopF true none none, .loopF true none none, .withF], 2, 0⟩]) (by decide) (by simp)
+  have r2 : Reach goodBreak ⟨0, [.loopF true none none, .withF], 2, 0⟩
+      ⟨2, [.loopF true none none, .loopF true none none, .withF], 2, 0⟩ :=
+    .tail r1 (l := [⟨2, [.loopF true none none, .loopF true none none, .withF], 2, 0⟩,
+      ⟨8, [.loopF true none none, .loopF true none none, .withF], 2, 0⟩]) (by decide) (by simp)
+  have r3 : Reach goodBreak ⟨0, [.loopF true none none, .withF], 2, 0⟩
+      ⟨3, [.withF, .loopF true none none, .loopF true none none, .withF], 2, 0⟩ :=
+    .tail r2 (l := [⟨3, [.withF, .loopF true none none, .loopF true none none, .withF], 2, 0⟩]) (by decide) (by simp)
+  exact ⟨_, r3, rfl, rfl⟩
 
 /-! ## Nested evaluations give the execution state back on success AND on failure -/
 
@@ -304,6 +370,34 @@ jump to the loop end: `PopAutoEscape, EndCapture, DiscardTop, PopFrame, Jump` -/
 example : (((MJ.BalGen.compileTemplate everything).map (·.1)).drop 17).take 5 =
     [.popAutoEscape, .endCapture, .other, .popFrame, .jump 67] := by decide
 
+/-! ## The generator as the Rust is written: `pending_block` back-patching -/
+
+open MJ.BalGen in
+/-- `backpatching_generator_eq`: the model of `CodeGenerator` that works the way `codegen.rs` does —
+`add` appends one instruction, jumps are emitted with a placeholder target and remembered on the
+`pending_block` stack (`Branch { jump_instr }`, `Loop { iter_instr, jump_instrs }`, `Scope(..)`),
+`end_condition` / `end_for_loop` / `compile_macro_expression` write the target into the remembered
+instructions afterwards, `break` registers its jump with the innermost pending loop, `continue` reads
+that loop's `iter_instr`, `leave_scopes_of_innermost_loop` walks the stack down to it
+(`MJ/Model/BalPatch.lean`) — emits, for EVERY statement tree, exactly the instruction list of the
+generator `compileTemplate` that computes targets from block sizes, and leaves `pending_block` empty. -/
+theorem backpatching_generator_eq (s : Stmt) :
+    MJ.BalPatch.genTemplate s = (compileTemplate s).map (·.1) ∧
+    (MJ.BalPatch.gen s ⟨[], []⟩).pending = [] :=
+  MJ.BalPatch.genTemplate_eq s
+
+open MJ.BalGen in
+/-- `backpatched_code_balanced`: hence the code the back-patching generator emits for a statement tree
+the parser accepts is balanced on every path -/
+theorem backpatched_code_balanced (s : Stmt) (h : ok false s = true) :
+    Balanced (MJ.BalPatch.genTemplate s).toArray := by
+  rw [(backpatching_generator_eq s).1]
+  exact compiled_code_balanced s h
+
+example : (MJ.BalPatch.genTemplate everything).length = 71 := by decide
+example : Balanced (MJ.BalPatch.genTemplate everything).toArray :=
+  backpatched_code_balanced everything (by decide)
+
 /-! ## The model agrees with tables regenerated from the sources on every run
 
 `MJ.Gen.c05*` are rewritten by `lib/tables/c05.py` from `compiler/instructions.rs`, `vm/mod.rs`
@@ -480,5 +574,206 @@ open MJ.Gen in
 by the harness inside every scoped construct -/
 theorem state_builtins_covered :
     c05StateBuiltins.all (fun n => c05HarnessBuiltins.contains n) = true := by decide
+
+end MJ.C05
+
+namespace MJ.C05
+open MJ.Ops MJ.Gen
+
+/-! ## The operand stack across `loop(...)` recursion
+
+Model `MJ/Model/Ops.lean`: one activation of `eval_impl` with the height of the operand stack, the
+frames it pushed, `next_loop_recursion_jump` and `loop_recursion_bases` as in the engine, and as
+ghost state the base each loop frame's own `PushLoop` recorded.  The machine is run along the
+operand-stack heights observed on the real engine for every generated template with a recursive loop
+(`drive_c05`, `O` lines): any transition the engine makes and the machine does not have is reported. -/
+
+/-- `recursion_bases_paired`: in every reachable state of a stream whose `PopFrame`s only meet `with`
+frames (what an accepted certificate guarantees, `checkCert_sound`), the engine's
+`loop_recursion_bases` is exactly the list of the bases recorded by the `PushLoop`s of the loop frames
+that are live, innermost first, and a loop frame has recorded one iff it carries a recursion return
+(`current_recursion_jump`): pushes and pops of `loop_recursion_bases` are paired with the loop frames
+of `loop(...)` levels — for `CallFunction` (captured) and `FastRecurse` entries alike, under any
+nesting, on every path. -/
+theorem recursion_bases_paired {code : Code} {s0 s : State} (hd : Disciplined code s0) (h0 : Inv s0)
+    (hr : Reach condReal code s0 s) :
+    s.bases = basesOf s.frames ∧ framesOk s.frames = true :=
+  reach_inv hd h0 hr
+
+/-- `popLoopFrame_truncates_to_own_base`: when a level of `loop(...)` ends — `PopLoopFrame` on a loop
+frame with a recursion return `(t, cap)`, whichever entry form `cap` — the base on top of
+`loop_recursion_bases` is the one the `PushLoop` of that very frame recorded, the operand stack is
+truncated to it (then the captured output is pushed for the `CallFunction` form) and the remaining
+bases are those of the remaining frames.  This is the only successor. -/
+theorem popLoopFrame_truncates_to_own_base {code : Code} {s0 s : State} (hd : Disciplined code s0)
+    (h0 : Inv s0) (hr : Reach condReal code s0 s) (hi : code[s.pc]? = some .popLoopFrame)
+    {l : Loop} {fs : List Frame} {t : Nat} {cap : Bool}
+    (hfr : s.frames = .loopF l :: fs) (hret : l.ret = some (t, cap)) :
+    ∃ b, l.gbase = some b ∧ s.bases = b :: basesOf fs ∧
+      ∀ k, step condReal code s k =
+        [{ s with pc := t, h := if cap then min s.h b + 1 else min s.h b, frames := fs,
+                  bases := basesOf fs, caps := if cap then s.caps.tail else s.caps }] := by
+  obtain ⟨hb, hf⟩ := reach_inv hd h0 hr
+  rw [hfr] at hb hf
+  simp only [framesOk, Bool.and_eq_true, beq_iff_eq] at hf
+  have hg : l.gbase.isSome = true := by
+    have := hf.1; rw [hret] at this; simpa using this
+  obtain ⟨b, hgb⟩ := Option.isSome_iff_exists.mp hg
+  have hb' : s.bases = b :: basesOf fs := by simpa [basesOf, hgb] using hb
+  refine ⟨b, hgb, hb', fun k => ?_⟩
+  simp [step, hi, doPopLoopFrame, hfr, hret, hb', truncated]
+
+/-- `pushLoop_records_height_under_argument`: the base a `PushLoop` records when it is reached through
+`loop(...)` is the height of the operand stack once the argument of the call is popped — everything
+below belongs to the caller, everything above will have been pushed by the level. -/
+theorem pushLoop_records_height_under_argument {code : Code} {s t : State} {k : Nat} {v r : Bool}
+    (hi : code[s.pc]? = some (.pushLoop v r)) {nx : Nat × Bool} (hn : s.next = some nx)
+    (ht : t ∈ step condReal code s k) :
+    t.h = s.h - 1 ∧ t.bases = (s.h - 1) :: s.bases ∧ t.next = none ∧
+      ∃ l, t.frames = .loopF l :: s.frames ∧ l.gbase = some (s.h - 1) ∧ l.ret = some nx := by
+  simp only [step, hi, doPushLoop] at ht
+  split at ht
+  · simp at ht
+  · simp only [List.mem_singleton] at ht
+    subst ht
+    simp [condReal, hn]
+
+/-- `recursion_restores_operands`: a level that did not go below its base (no underflow within the
+level: C01's `no_underflow`; checked on every replayed run) hands the operand stack back at exactly
+that base plus the one captured value of the `CallFunction` form: whatever the level left behind (the
+flag for its `else` block) is dropped, nothing of the caller is. -/
+theorem recursion_restores_operands {code : Code} {s0 s : State} (hd : Disciplined code s0)
+    (h0 : Inv s0) (hr : Reach condReal code s0 s) (hi : code[s.pc]? = some .popLoopFrame)
+    {l : Loop} {fs : List Frame} {t : Nat} {cap : Bool}
+    (hfr : s.frames = .loopF l :: fs) (hret : l.ret = some (t, cap)) {b : Nat} (hb : l.gbase = some b)
+    (hge : b ≤ s.h) {k : Nat} {u : State} (hu : u ∈ step condReal code s k) :
+    u.pc = t ∧ u.h = b + (if cap then 1 else 0) ∧ u.frames = fs ∧ u.bases = basesOf fs := by
+  obtain ⟨b', hb', _, hstep⟩ := popLoopFrame_truncates_to_own_base hd h0 hr hi hfr hret
+  rw [hb] at hb'; cases hb'
+  rw [hstep k] at hu
+  simp only [List.mem_singleton] at hu
+  subst hu
+  cases cap <;> simp [Nat.min_eq_right hge]
+
+/-- a recursive loop with an `else` block whose body calls `loop(x)` either inside an expression with a
+waiting operand (pcs 6–10) or as a statement (12–13) -/
+def mixedRecursion : Code := #[
+  .eff 0 1, .pushLoop true true, .iterate 16, .eff 1 0, .eff 0 1, .jumpIfFalse 12,
+  .eff 0 1, .eff 0 1, .call 1, .eff 2 1, .eff 1 0, .jump 15,
+  .eff 0 1, .fastRecurse, .jump 15, .jump 2,
+  .pushDidNotIterate, .popLoopFrame, .jumpIfFalse 19, .eff 0 0]
+
+/-- outermost level → captured `loop(x)` → fast `loop(x)` → empty iteration → back to the second
+level's `PopLoopFrame` (choices: count, index of the successor) -/
+def mixedPath : List (Nat × Nat) :=
+  [(0,0), (0,0), (0,0), (0,0), (0,0), (0,0), (0,0), (0,0), (0,1),   -- … 'p', x, loop(x) captured
+   (0,0), (0,0), (0,0), (0,0), (0,1), (0,0), (0,0),                 -- level 1: …, else branch, x, loop(x) fast
+   (0,0), (0,1), (0,0), (0,0),                                      -- level 2: empty, flag, PopLoopFrame
+   (0,0), (0,0), (0,1), (0,0)]                                      -- level 1: next item: none, flag → PopLoopFrame
+
+/-- the hypotheses of the recursion theorems are satisfiable: the second level of `mixedRecursion`
+ends with a waiting operand of its caller below its base, its own `else` flag above it -/
+example : ∃ s l fs, Disciplined mixedRecursion (init 0 0) ∧
+    Reach condReal mixedRecursion (init 0 0) s ∧ mixedRecursion[s.pc]? = some .popLoopFrame ∧
+    s.frames = .loopF l :: fs ∧ l.ret = some (9, true) ∧ l.gbase = some 1 ∧ s.h = 2 ∧ s.bases = [1] := by
+  have hf : follow condReal mixedRecursion (init 0 0) mixedPath = some
+      { pc := 17, h := 2,
+        frames := [.loopF ⟨true, some 1, some (9, true), some 1, 1⟩, .loopF ⟨true, some 1, none, none, 0⟩],
+        caps := [none], escs := [], bases := [1], next := none } := by decide
+  exact ⟨_, _, _, disciplined_of_no_popFrame (by decide),
+    follow_reach _ _ _ (.refl _) hf, by decide, rfl, rfl, rfl, rfl, rfl⟩
+
+/-- `certified_recursion_bases_paired`: the two machines composed.  For every instruction stream whose
+projection to the balance alphabet has a certificate accepted by the verified checker — what
+`drive_c05` establishes for every real stream — from every region entry and any initial operand
+height, EVERY reachable state of the operand-stack machine has `loop_recursion_bases` equal to the
+bases recorded by the live loop frames: no hypothesis on the run is left (`Disciplined` is discharged
+by `checkCert_sound` through the simulation `MJ.OpsBal.sim_reach`). -/
+theorem certified_recursion_bases_paired {code : Code} {cert : MJ.Bal.Cert}
+    (hc : MJ.Bal.checkCert (MJ.OpsBal.projCode code) cert = true)
+    {e : Nat} (he : e ∈ MJ.Bal.entries (MJ.OpsBal.projCode code)) (h0 : Nat)
+    {s : State} (hr : Reach condReal code (init e h0) s) :
+    s.bases = basesOf s.frames ∧ framesOk s.frames = true :=
+  recursion_bases_paired (MJ.OpsBal.certified_disciplined hc he h0) (init_inv e h0) hr
+
+/-- … and so every level of `loop(...)` of a certified stream ends by truncating to the base its own
+`PushLoop` recorded -/
+theorem certified_recursion_return {code : Code}
+    (hv : MJ.Bal.validate (MJ.OpsBal.projCode code) = true)
+    {e : Nat} (he : e ∈ MJ.Bal.entries (MJ.OpsBal.projCode code)) (h0 : Nat)
+    {s : State} (hr : Reach condReal code (init e h0) s) (hi : code[s.pc]? = some .popLoopFrame)
+    {l : Loop} {fs : List Frame} {t : Nat} {cap : Bool}
+    (hfr : s.frames = .loopF l :: fs) (hret : l.ret = some (t, cap)) :
+    ∃ b, l.gbase = some b ∧ s.bases = b :: basesOf fs ∧
+      ∀ k, step condReal code s k =
+        [{ s with pc := t, h := if cap then min s.h b + 1 else min s.h b, frames := fs,
+                  bases := basesOf fs, caps := if cap then s.caps.tail else s.caps }] :=
+  popLoopFrame_truncates_to_own_base (MJ.OpsBal.certified_disciplined hv he h0) (init_inv e h0) hr hi hfr hret
+
+/-- `mixedRecursion` is such a stream: its projection is accepted by the verified checker -/
+example : MJ.Bal.validate (MJ.OpsBal.projCode mixedRecursion) = true := by decide +kernel
+
+/-- `capturedOnly_leaks_else_flag`: the model tells the variants apart.  With a `PushLoop` that only
+records a base for the captured form (`if let Some((_, true)) = recursion_jump`) while `PopLoopFrame`
+still pops one per level, the same run of `mixedRecursion` comes back from the captured call with the
+`else` flag of the level still on the operand stack (height 3 instead of 2: the string concatenation
+at pc 9 then consumes the flag in place of the waiting operand), because the fast-path level inside
+popped the base of the captured level around it. -/
+theorem capturedOnly_leaks_else_flag :
+    ∃ s₁ s₂ : State,
+      follow condReal mixedRecursion (init 0 0) (mixedPath ++ [(0, 0)]) = some s₁ ∧
+      follow condCapturedOnly mixedRecursion (init 0 0) (mixedPath ++ [(0, 0)]) = some s₂ ∧
+      s₁.pc = 9 ∧ s₂.pc = 9 ∧ s₁.h = 2 ∧ s₂.h = 3 ∧ s₁.bases = [] ∧ s₂.bases = [] :=
+  ⟨{ pc := 9, h := 2, frames := [.loopF ⟨true, some 1, none, none, 0⟩], caps := [], escs := [], bases := [],
+     next := none },
+   { pc := 9, h := 3, frames := [.loopF ⟨true, some 1, none, none, 0⟩], caps := [], escs := [], bases := [],
+     next := none },
+   by decide, by decide, rfl, rfl, rfl, rfl, rfl, rfl⟩
+
+/-- `recursion_bases_sites_as_modelled`: every statement of `eval_impl` and `push_loop` that mentions
+`loop_recursion_bases`, `next_loop_recursion_jump`, `recursion_jump`, `current_recursion_jump` or
+truncates the operand stack, with the conditions it is under, regenerated from `vm/mod.rs` on every
+run: the one push site is under `recursion_jump.is_some()` (`condReal`) where `recursion_jump` is what
+`recurse_loop!` left in `next_loop_recursion_jump` and what `push_loop` stores as the frame's
+`current_recursion_jump`; the one pop site (and the `truncate` that uses it) is under that field being
+`Some`: push and pop sit under the same condition, as `doPushLoop` / `doPopLoopFrame` have it. -/
+theorem recursion_bases_sites_as_modelled :
+    c05RecursionBases = [
+      ("prologue", "let mut next_loop_recursion_jump = None", []),
+      ("prologue", "let mut loop_recursion_bases: Vec<usize> = Vec::new()", []),
+      ("recurse_loop!", "next_loop_recursion_jump = Some((pc + 1, $capture))", []),
+      ("PopLoopFrame", "if let Some((target, end_capture)) = l.current_recursion_jump.take()", []),
+      ("PopLoopFrame", "if let Some(base) = loop_recursion_bases.pop()",
+        ["if let Some((target, end_capture)) = l.current_recursion_jump.take()"]),
+      ("PopLoopFrame", "stack.truncate(base)",
+        ["if let Some((target, end_capture)) = l.current_recursion_jump.take()",
+         "if let Some(base) = loop_recursion_bases.pop()"]),
+      ("PushLoop", "let recursion_jump = next_loop_recursion_jump.take()", []),
+      ("PushLoop", "if recursion_jump.is_some()", []),
+      ("PushLoop", "loop_recursion_bases.push(stack.len())", ["if recursion_jump.is_some()"]),
+      ("PushLoop", "ctx_ok!(Self::push_loop(state, a, *flags, pc, recursion_jump))", []),
+      ("push_loop", "if let Some((jump_instr, _)) = current_recursion_jump", []),
+      ("push_loop", "LoopState::new(.., current_recursion_jump, ..)", [])] := by decide
+
+/-- `backpatch_sites_as_modelled`: the primitives of the `pending_block` back-patching in
+`codegen.rs`, each as the sequence of its landmarks in textual order (instructions added, pending
+blocks pushed / popped, which instruction variants get which target written, `break` registering its
+jump, `continue` reading `iter_instr`), regenerated from the source on every run — what
+`startIf` / `startElse` / `endIf` / `endCondition` / `startForLoop` / `endForLoop` / `startScope` /
+`endScope`, the macro arm and the `break` / `continue` arms of `MJ.BalPatch.gen` transcribe. -/
+theorem backpatch_sites_as_modelled :
+    c05BackpatchSites = [
+      ("start_if", ["add:JumpIfFalse", "push:Branch"]),
+      ("start_else", ["add:Jump", "end_condition", "push:Branch"]),
+      ("end_if", ["end_condition"]),
+      ("end_condition", ["pop", "writes:JumpIfFalse", "writes:Jump", "target=new_jump_instr"]),
+      ("start_for_loop", ["add:PushLoop", "add:Iterate", "push:Loop"]),
+      ("end_for_loop", ["pop", "add:Jump", "add:PushDidNotIterate", "add:PopLoopFrame", "writes:Iterate",
+        "writes:Jump", "target=loop_end"]),
+      ("start_scope", ["push:Scope"]),
+      ("end_scope", ["pop"]),
+      ("compile_macro_expression", ["add:Jump", "add:Return", "add:BuildMacro", "writes:Jump", "target=macro_instr"]),
+      ("Continue", ["leave", "reads:iter_instr", "add:Jump"]),
+      ("Break", ["leave", "add:Jump", "register"])] := by decide
 
 end MJ.C05
